@@ -93,8 +93,8 @@ def base_configs():
         groups={"default": {"link_clp": True}})
     add("linked-three-scales-partial-overlap",
         datasets=[{"label": "d1", "mc": ["m1"], "maxis": A2, "gaxis": [1.0, 2.0, 3.0], "scale": "sc1"},
-                  {"label": "d2", "mc": ["m1"], "maxis": A2, "gaxis": [2.0, 3.0, 4.0], "scale": "sc2"},
-                  {"label": "d3", "mc": ["m1"], "maxis": A2, "gaxis": [1.0, 3.0, 4.0, 5.0], "scale": "sc3"}],
+                  {"label": "d2", "mc": ["m1"], "maxis": A3, "gaxis": [2.0, 3.0, 4.0], "scale": "sc2"},
+                  {"label": "d3", "mc": ["m1"], "maxis": A3 + [3.0], "gaxis": [1.0, 3.0, 4.0, 5.0], "scale": "sc3"}],
         groups={"default": {"link_clp": True}})
     add("unlinked-two-datasets-nnls",
         datasets=[{"label": "d1", "mc": ["m1"], "maxis": A2, "gaxis": G2},
@@ -114,6 +114,25 @@ def base_configs():
         gmcs={"g1": {"labels": ["a"]}, "g2": {"labels": ["a", "b"]}},
         datasets=[{"label": "d1", "mc": ["m1"], "gmc": ["g1", "g2"], "gmc_scale": ["gs1", "gs2"], "maxis": A2, "gaxis": G2},
                   {"label": "d2", "mc": ["m2"], "maxis": A2, "gaxis": G3}])
+    add("unlinked-two-datasets-penalties",
+        mcs={"m1": {"labels": ["s1", "s2", "s3"]}},
+        datasets=[{"label": "d1", "mc": ["m1"], "maxis": A3 + [3.0], "gaxis": G2},
+                  {"label": "d2", "mc": ["m1"], "maxis": A3 + [2.5], "gaxis": G3, "scale": "sc2"}],
+        groups={"default": {"link_clp": False}},
+        penalties=[{"source": "s1", "source_intervals": [[1.0, 2.0]], "target": "s2", "target_intervals": [[1.0, 3.0]],
+                    "parameter": "pen1"}])
+    add("model-weight-square-gm",
+        datasets=[{"label": "d1", "mc": ["m1"], "maxis": A3, "gaxis": G3, "order": "gm"}],
+        weights=[{"datasets": ["d1"], "global_interval": [2.0, INF], "model_interval": [0.0, 0.5]}])
+    add("linked-chain-overlap-unequal-model-axes",
+        datasets=[{"label": "d1", "mc": ["m1"], "maxis": A3 + [3.0], "gaxis": [1.0, 2.0, 3.0]},
+                  {"label": "d2", "mc": ["m1"], "maxis": A2, "gaxis": [2.0, 3.0, 4.0]},
+                  {"label": "d3", "mc": ["m1"], "maxis": A3, "gaxis": [3.0, 4.0, 5.0], "scale": "sc3"}],
+        groups={"default": {"link_clp": True}})
+    add("full-model-nnls",
+        gmcs={"g1": {"labels": ["a", "b"]}},
+        datasets=[{"label": "d1", "mc": ["m1"], "gmc": ["g1"], "maxis": A3, "gaxis": G2}],
+        groups={"default": {"link_clp": False, "residual_function": "non_negative_least_squares"}})
     add("param-dependent-matrix",
         mcs={"m1": {"labels": ["s1", "s2"], "pars": ["k1", "k2"]}},
         datasets=[{"label": "d1", "mc": ["m1"], "maxis": A2, "gaxis": G2}])
